@@ -88,10 +88,18 @@ def native_of(T_, mv):
     raise ValueError("cannot build native value of %r" % (T_,))
 
 
+def math_view(v):
+    if isinstance(v, np.integer):
+        return int(v)
+    if isinstance(v, tuple) and not hasattr(v, "_fields"):
+        return tuple(math_view(x) for x in v)
+    return v
+
+
 def native_clause_env(contract, args, result=None):
     env = dict(contract.bindings)
-    env.update(args)
-    env["result"] = result
+    env.update({k: math_view(v) for k, v in args.items()})
+    env["result"] = math_view(result)
     env["old"] = lambda x: x
     return env
 
